@@ -127,7 +127,7 @@ CHECKS["C18"] = hist_check("C18",
     "Oracle from the OS shim's log of madvise(DONTNEED|FREE)/mprotect(PROT_NONE): delay>0: every freed watched region is hit by a purge call by the end; delay=0: by the "
     "time the freeing call returned; delay=-1: no purge call at all in the whole case. Non-trivial = the case freed at least one whole segment and one page of a surviving "
     "segment and all expectations were evaluated. Distinct = hash of the IR text.",
-    [R("rel", 6000, 100000, 2.0), R("dbg", 2000, 30000, 1.0)],
+    [R("rel", 14000, 200000, 2.0), R("dbg", 5000, 60000, 1.0)],
     assumptions=["purge by reset (purge_decommits=0) is only promised for fully committed ranges: those cases set eager commit options so the expectation is what the code documents",
                  "only the presence/absence of purge calls per freed region is asserted, not the amount purged nor that a purge does not come early"])
 
@@ -151,7 +151,7 @@ CHECKS["C15"] = hist_check("C15",
     "exclusive arena E never intersects E (also after adoption); NULL (never an outside address) when A is full; an empty arena accepts exactly block_count one-block allocations; "
     "mi_arena_area is inside the region handed to mi_manage_os_memory_ex and no mprotect/madvise/munmap touches the caller's mapping outside it; plus the C01 model. Non-trivial = "
     "an unbound heap allocated while a live block existed in an exclusive arena, or a bound heap returned NULL after a capacity probe. Distinct = hash of the IR text.",
-    [R("rel", 6000, 100000, 2.0), R("dbg", 2500, 30000, 1.0)],
+    [R("rel", 16000, 200000, 2.0), R("dbg", 6000, 60000, 1.0)],
     assumptions=["requests of more than one arena block are only asserted to lie inside the arena, not to succeed"])
 
 CHECKS["C17"] = hist_check("C17",
@@ -162,7 +162,7 @@ CHECKS["C17"] = hist_check("C17",
     "the free; (c) EFAULT no later than the allocation returning the block; no other error code; secure build: afterwards 1-2x page-capacity allocations of that class never "
     "return an address twice, never overlap a live block, always lie inside the heap regions, and the history continues under the C01 oracle; debug build: the case stops "
     "after the detection. Non-trivial = at least one misuse was injected and detected with >= 8 blocks live. Distinct = hash of the IR text.",
-    [R("sec", 12000, 200000, 1.0), R("dbg", 5000, 60000, 1.0)],
+    [R("sec", 30000, 300000, 1.0), R("dbg", 12000, 90000, 1.0)],
     assumptions=["a forged link that decodes into the same page (probability about 2^-47 per case) would be followed by design; not classified white-box, treated as undetected if it ever happened",
                  "blocks whose requested size changed (in-place realloc/expand), aligned or zero-chain blocks are not used for the overflow misuse: their canary does not sit at the requested size"])
 
